@@ -79,6 +79,7 @@ type suSub struct {
 	hasACL  bool
 	view    map[string]string
 	viewOK  bool
+	reqsClosed bool
 }
 
 // ---- in-memory pb.GNMI_SubscribeServer ----
@@ -340,6 +341,7 @@ func parseSuReq(tok string) (*pb.SubscribeRequest, [][]string, string, bool) {
 			sf := strings.Split(sp, ":")
 			if sf[0] == "1" {
 				sl.Subscription = append(sl.Subscription, &pb.Subscription{})
+				regs = append(regs, cloneStrs(pre))
 				continue
 			}
 			p := &pb.Path{Origin: decStr(sf[1])}
@@ -420,6 +422,7 @@ func (c *suComp) Run(args []string) string {
 		req, regs, mode, uo := parseSuReq(args[3])
 		s.regs, s.mode, s.uo = regs, mode, uo
 		if req == nil {
+			s.reqsClosed = true
 			close(s.reqs)
 		} else {
 			s.reqs <- req
@@ -445,17 +448,15 @@ func (c *suComp) Run(args []string) string {
 	case "drain":
 		return s.drain()
 	case "poll":
-		if !s.isDone() {
+		if !s.isDone() && !s.reqsClosed {
 			s.reqs <- &pb.SubscribeRequest{Request: &pb.SubscribeRequest_Poll{Poll: &pb.Poll{}}}
 		}
 		quiesce()
 		return "ok"
 	case "eof":
-		if !s.isDone() {
-			func() {
-				defer func() { recover() }()
-				close(s.reqs)
-			}()
+		if !s.reqsClosed {
+			s.reqsClosed = true
+			close(s.reqs)
 		}
 		quiesce()
 		return "ok"
@@ -516,9 +517,13 @@ func compatibleGo(q, p []string) bool {
 	return true
 }
 
-// viewCheck is the C04 monitor, independent of the model: replaying everything this (live,
-// ungated, not updates_only) STREAM subscriber received yields exactly the cache's leaves that
-// its registered paths are compatible with and its ACL allows.
+// viewCheck is the C04 monitor, independent of the model. For a live, ungated STREAM subscriber
+// (not updates_only), replaying everything it received must give a view in which
+//   (1) every cache leaf that a Query for one of its (completed) paths returns, on a target its
+//       ACL allows, is present with the cache's current value — "the cache's matching content";
+//   (2) every entry equals the cache's current value for that leaf (nothing stale, nothing the
+//       cache no longer has), and concerns an allowed target and a path compatible with one of
+//       its registrations (C06: streamed = compatible, a superset of what a query returns).
 func (c *suComp) viewCheck(s *suSub) string {
 	if s.mode != "s" || s.uo || s.isDone() {
 		return "ok"
@@ -528,7 +533,9 @@ func (c *suComp) viewCheck(s *suSub) string {
 	if s.gate != nil {
 		return "ok"
 	}
-	want := map[string]string{}
+	cur := map[string]string{}    // every allowed leaf: index -> value
+	compat := map[string]bool{}   // ... compatible with a registration
+	matched := map[string]bool{}  // ... returned by a query for a registration path
 	c.ca.c.Query("*", nil, func(p []string, l *ctree.Leaf, v interface{}) error {
 		n, ok := v.(*pb.Notification)
 		if !ok {
@@ -539,6 +546,8 @@ func (c *suComp) viewCheck(s *suSub) string {
 		if s.caller != nil && !s.caller.allowed[g.prefix.target] {
 			return nil
 		}
+		k := encPath(idx)
+		cur[k] = viewVal(g, c.ca.ed)
 		var paths [][]string
 		if g.atomic {
 			for _, u := range g.upd {
@@ -550,22 +559,27 @@ func (c *suComp) viewCheck(s *suSub) string {
 		for _, q := range s.regs {
 			for _, p := range paths {
 				if compatibleGo(q, p) {
-					want[encPath(idx)] = viewVal(g, c.ca.ed)
-					return nil
+					compat[k] = true
 				}
+			}
+			// a query for q (target first; "*" addresses every target) returns the stored key
+			if qmatchesGo(q, idx) {
+				matched[k] = true
 			}
 		}
 		return nil
 	})
 	var diff []string
-	for k, v := range want {
-		if s.view[k] != v {
-			diff = append(diff, k)
+	for k := range matched {
+		if s.view[k] != cur[k] {
+			diff = append(diff, "missing-or-stale:"+k)
 		}
 	}
-	for k := range s.view {
-		if _, ok := want[k]; !ok {
-			diff = append(diff, k)
+	for k, v := range s.view {
+		if cv, ok := cur[k]; !ok || cv != v {
+			diff = append(diff, "phantom-or-stale:"+k)
+		} else if !compat[k] {
+			diff = append(diff, "not-subscribed:"+k)
 		}
 	}
 	if len(diff) == 0 {
@@ -707,7 +721,7 @@ func (s *suGen) genSub(id string) {
 }
 
 func (c *suComp) Gen(r *rand.Rand, tier string) []string {
-	g := &caGen{r: r, now: 1000 + int64(r.Intn(1000)), lastTS: map[string]int64{}}
+	g := &caGen{r: r, now: 1000 + int64(r.Intn(1000)), lastTS: map[string]int64{}, atomicApart: true}
 	g.thr = []int64{0, 0, 50}[r.Intn(3)]
 	ed := "1"
 	if r.Intn(3) == 0 {
